@@ -163,6 +163,17 @@ class EntityInfo:
 
         self.non_dynamic_ports = None
 
+    def _restore_declared_ports(self):
+        # The port objects are shared by all builds of the entity
+        # (and by the builds of derived entities). Restore the state of the
+        # declaration, previous builds might have removed the default value
+        # or changed the Python level value of the ports.
+        for port in self.ports.values():
+            if hasattr(port, "_cohdl_declared_default"):
+                default = port._cohdl_declared_default
+                port._default = default
+                port._value = type(port)._Wrapped(default)
+
     def add_port(self, name, port):
         #
         # this method is required for board definition classes
@@ -201,6 +212,7 @@ class Entity(Block):
             if isinstance(value, Port):
                 ports[key] = value
                 value._name = key
+                value._cohdl_declared_default = value._default
             elif isinstance(value, Generic):
                 generics[key] = value
                 value._name = key
@@ -248,6 +260,7 @@ class Entity(Block):
             # the port info might be inspected after the build.
             # For example when constructing simulation objects.
             info._discard_dynamic_ports()
+            info._restore_declared_ports()
 
             global _block_stack
 
